@@ -121,9 +121,21 @@ fn derive(cur: &RefInt, mode: i128, given: &RefInt, small: u64) -> RefInt {
     }
 }
 
-const OPS: [&str; 18] = [
+const OPS: [&str; 24] = [
     "+=", "-=", "*=", "/=", "%=", "<<=", ">>=", "&=", "|=", "^=", "set_bit", "set_zero", "set_one", "clone_from", "assign_from_slice", "neg", "take_and_restore", "+= then -= (round trip)",
+    "+= scalar", "-= scalar", "*= scalar", "/= scalar", "%= scalar", "inc/dec",
 ];
+
+/// the scalar of a scalar step: one digit, two digits (u128 / i128 wide), or a small value
+fn step_scalar(small: u64) -> i128 {
+    match small % 5 {
+        0 => (small >> 3) as i128,                                   // one digit
+        1 => (((small as u128) << 64) | (small as u128 >> 1)) as i128 & i128::MAX, // needs two digits
+        2 => -(((small >> 3) as i128) + 1),
+        3 => (small % 7) as i128,
+        _ => -(((small as u128) << 60) as i128 & i128::MAX) - 1,
+    }
+}
 
 fn history(start_neg: bool, start: &[u64], steps: &[Arg]) -> Verdict {
     let mut x = bi(start_neg, start);
@@ -180,7 +192,13 @@ fn history(start_neg: bool, start: &[u64], steps: &[Arg]) -> Verdict {
                 }
                 15 => { x = -std::mem::take(&mut x); m = m.neg(); }
                 16 => { let t = std::mem::take(&mut x); if !x.is_zero() { return Err("mem::take left a non-zero value".into()); } x = t; }
-                _ => { x += &bb; x -= &bb; }
+                17 => { x += &bb; x -= &bb; }
+                18 => { let s = step_scalar(small); x += s; m = m.add(&RefInt::from_i128(s)); }
+                19 => { let s = step_scalar(small); x -= s; m = m.sub(&RefInt::from_i128(s)); }
+                20 => { let s = step_scalar(small); x *= s; m = m.mul(&RefInt::from_i128(s)); }
+                21 => { let s = step_scalar(small); if s != 0 { x /= s; m = m.divrem_trunc(&RefInt::from_i128(s)).0; } }
+                22 => { let s = step_scalar(small); if s != 0 { x %= s; m = m.divrem_trunc(&RefInt::from_i128(s)).1; } }
+                _ => { use num_integer::Integer; if small & 1 == 1 { x.inc(); m = m.add(&RefInt::one()); } else { x.dec(); m = m.sub(&RefInt::one()); } }
             }
             Ok(())
         });
@@ -217,6 +235,12 @@ fn history(start_neg: bool, start: &[u64], steps: &[Arg]) -> Verdict {
                 }
                 16 => { let t = std::mem::take(&mut u); u = t; }
                 17 => { u += &ubb; u -= &ubb; }
+                18 => { let s = step_scalar(small).unsigned_abs(); u += s; um = um.add(&Nat::from_u128(s)); }
+                19 => { let s = step_scalar(small).unsigned_abs(); if !um.lt(&Nat::from_u128(s)) { u -= s; um = um.sub(&Nat::from_u128(s)); } }
+                20 => { let s = step_scalar(small).unsigned_abs(); u *= s; um = um.mul(&Nat::from_u128(s)); }
+                21 => { let s = step_scalar(small).unsigned_abs(); if s != 0 { u /= s; um = um.divrem(&Nat::from_u128(s)).0; } }
+                22 => { let s = step_scalar(small).unsigned_abs(); if s != 0 { u %= s; um = um.divrem(&Nat::from_u128(s)).1; } }
+                23 => { use num_integer::Integer; if small & 1 == 1 { u.inc(); um = um.add(&Nat::one()); } else if !um.is_zero() { u.dec(); um = um.sub(&Nat::one()); } }
                 _ => {}
             }
             Ok(())
@@ -352,7 +376,7 @@ impl Property for C04 {
         "C04"
     }
     fn rule(&self) -> &'static str {
-        "Two domains. hist: a start value and 1..30 in-place steps on one BigInt object and, in parallel, one BigUint object (+= -= *= /= %= <<= >>= &= |= ^= set_bit set_zero set_one clone_from assign_from_slice(with redundant zero words and any sign) neg mem::take, += then -=); a step's operand is either generated or DERIVED from the current value (a copy, copy+-small, only its top digits, the low mask 2^(bits-k)-1, its negation, its complement) and shift amounts / bit indices are the current bit length, +-1, or its digit floor, so that cancellation (x ^= x, x -= x, x %= x, x &= mask, x >>= bits) actually happens. After EVERY step the object must equal the RefInt model, be canonical (no high zero digit; NoSign iff zero) and be indistinguishable from a twin built from the model by a different route (decimal text, bytes, u32 slice, signed bytes - rotating): ==, cmp, <, >, DefaultHasher output, to_bytes_le, to_u32_digits, to_signed_bytes_be, Display, LowerHex; at the end all values met are compared pairwise (cmp, <, ==, partial_cmp, max) and sorted, against the model order. ctor: u32 word lists with redundant high zeros and interior zeros x all three Sign requests through new/from_slice/from_biguint, padded byte strings through from_bytes_le/from_signed_bytes_le/from_radix_le, numerals with leading zeros, arbitrary::Arbitrary (arbitrary and arbitrary_take_rest) on the byte string, quickcheck::Arbitrary with Gen::from_size_and_seed, and the first 40 shrink() candidates - each compared with twins in the same way. Non-trivial: a history in which the value shrinks (by >= 2 digits or to zero) after an earlier growth; a constructor input with redundant zeros or a sign mismatch."
+        "Two domains. hist: a start value and 1..30 in-place steps on one BigInt object and, in parallel, one BigUint object (+= -= *= /= %= <<= >>= &= |= ^= set_bit set_zero set_one clone_from assign_from_slice(with redundant zero words and any sign) neg mem::take, += then -=, and the scalar forms += -= *= /= %= with one- and two-digit i128/u128 scalars, inc, dec); a step's operand is either generated or DERIVED from the current value (a copy, copy+-small, only its top digits, the low mask 2^(bits-k)-1, its negation, its complement) and shift amounts / bit indices are the current bit length, +-1, or its digit floor, so that cancellation (x ^= x, x -= x, x %= x, x &= mask, x >>= bits) actually happens. After EVERY step the object must equal the RefInt model, be canonical (no high zero digit; NoSign iff zero) and be indistinguishable from a twin built from the model by a different route (decimal text, bytes, u32 slice, signed bytes - rotating): ==, cmp, <, >, DefaultHasher output, to_bytes_le, to_u32_digits, to_signed_bytes_be, Display, LowerHex; at the end all values met are compared pairwise (cmp, <, ==, partial_cmp, max) and sorted, against the model order. ctor: u32 word lists with redundant high zeros and interior zeros x all three Sign requests through new/from_slice/from_biguint, padded byte strings through from_bytes_le/from_signed_bytes_le/from_radix_le, numerals with leading zeros, arbitrary::Arbitrary (arbitrary and arbitrary_take_rest) on the byte string, quickcheck::Arbitrary with Gen::from_size_and_seed, and the first 40 shrink() candidates - each compared with twins in the same way. Non-trivial: a history in which the value shrinks (by >= 2 digits or to zero) after an earlier growth; a constructor input with redundant zeros or a sign mismatch."
     }
     fn technique(&self) -> &'static str {
         "model-based property testing (proptest): generated operation histories (vec(step) + interpreter holding implementation and RefInt model side by side) with value-derived operands; invariant and twin-indistinguishability oracle after every step"
@@ -363,7 +387,7 @@ impl Property for C04 {
             Tier::Thorough => 40,
         };
         let step = (
-            prop_oneof![60 => 0i128..=10, 25 => 11i128..=17, 15 => proptest::sample::select(vec![1i128, 4, 6, 7, 9, 3])],
+            prop_oneof![50 => 0i128..=10, 20 => 11i128..=17, 18 => 18i128..=23, 12 => proptest::sample::select(vec![1i128, 4, 6, 7, 9, 3])],
             any::<bool>(),
             prop_oneof![70 => gen::nat(3), 20 => gen::nat(8), 10 => gen::nat(0)],
             prop_oneof![45 => Just(0i128), 55 => 1i128..=7],
